@@ -818,7 +818,8 @@ mod verif_driver_compile {
     // ---- C10 (reproducibility, whole transaction): a template with several elements in EVERY list-like section compiled
     // repeatedly through the public entry point gives byte-identical payloads, and the outputs keep their source order.
     // BOUND: one template (3 inputs, 3 references, 3 collateral, 3 signers, 3 outputs, 2 mints + 1 burn over 2 policies,
-    // 2 withdrawals, 3 metadata entries, 3 Plutus witnesses, 4 native witnesses, validity), 33 compilations.
+    // 2 withdrawals, 5 certificates, 3 metadata entries, 3 Plutus witnesses, 4 native witnesses, validity, a datum and a redeemer
+    // holding maps of 6 and 4 entries), 33 compilations.
     #[test]
     fn entry_point_reproducible() {
         let mut n = 0;
@@ -834,11 +835,14 @@ mod verif_driver_compile {
         tx.signers = Some(tir::Signers { signers: vec![tir::Expression::Bytes(vec![9; 28]), tir::Expression::Bytes(vec![3; 28]), tir::Expression::Bytes(vec![5; 28])] });
         let addr = |k: u8| { let mut a = vec![0x61u8]; a.extend(vec![k; 28]); tir::Expression::Address(a) };
         tx.outputs = vec![
-            tir::Output { address: addr(3), datum: tir::Expression::Struct(tir::StructExpr { constructor: 1, fields: vec![num(7)] }), amount: tir::Expression::Assets(vec![ada(3_000_000), tok(2, "B", 4)]), optional: false },
+            tir::Output { address: addr(3), datum: tir::Expression::Struct(tir::StructExpr { constructor: 1, fields: vec![num(7),
+                // a map of six entries and a list: data in which entry order is significant
+                tir::Expression::Map(vec![(num(5), num(50)), (num(1), num(10)), (num(9), num(90)), (num(3), num(30)), (num(7), num(70)), (num(2), num(20))]),
+                tir::Expression::List(vec![num(3), num(1), num(2)])] }), amount: tir::Expression::Assets(vec![ada(3_000_000), tok(2, "B", 4)]), optional: false },
             tir::Output { address: addr(1), datum: tir::Expression::None, amount: tir::Expression::Assets(vec![ada(2_000_000)]), optional: false },
             tir::Output { address: addr(2), datum: tir::Expression::None, amount: tir::Expression::Assets(vec![ada(1_500_000), tok(1, "A", 9)]), optional: true },
         ];
-        tx.mints = vec![tir::Mint { amount: tir::Expression::Assets(vec![tok(2, "B", 4)]), redeemer: num(2) }, tir::Mint { amount: tir::Expression::Assets(vec![tok(1, "A", 10)]), redeemer: num(3) }];
+        tx.mints = vec![tir::Mint { amount: tir::Expression::Assets(vec![tok(2, "B", 4)]), redeemer: tir::Expression::Map(vec![(num(4), num(1)), (num(2), num(2)), (num(8), num(3)), (num(6), num(4))]) }, tir::Mint { amount: tir::Expression::Assets(vec![tok(1, "A", 10)]), redeemer: num(3) }];
         tx.burns = vec![tir::Mint { amount: tir::Expression::Assets(vec![tok(1, "A", 1)]), redeemer: tir::Expression::None }];
         let reward = |k: u8| { let mut a = vec![0xe0u8]; a.extend(vec![k; 28]); tir::Expression::Address(a) };
         tx.adhoc = vec![
@@ -847,6 +851,12 @@ mod verif_driver_compile {
             adhoc("plutus_witness", vec![("version", num(3)), ("script", tir::Expression::Bytes(vec![0x51, 1, 1, 0, 9]))]),
             adhoc("plutus_witness", vec![("version", num(3)), ("script", tir::Expression::Bytes(vec![0x51, 1, 1, 0, 2]))]),
             adhoc("plutus_witness", vec![("version", num(3)), ("script", tir::Expression::Bytes(vec![0x51, 1, 1, 0, 5]))]),
+            // five distinct certificates
+            adhoc("vote_delegation_certificate", vec![("stake", reward(7)), ("drep", tir::Expression::Bytes(vec![1; 28]))]),
+            adhoc("vote_delegation_certificate", vec![("stake", reward(3)), ("drep", tir::Expression::Bytes(vec![9; 28]))]),
+            adhoc("vote_delegation_certificate", vec![("stake", reward(9)), ("drep", tir::Expression::Bytes(vec![4; 28]))]),
+            adhoc("vote_delegation_certificate", vec![("stake", reward(1)), ("drep", tir::Expression::Bytes(vec![6; 28]))]),
+            adhoc("vote_delegation_certificate", vec![("stake", reward(5)), ("drep", tir::Expression::Bytes(vec![2; 28]))]),
             // native scripts `[0, keyhash]` (require this signature)
             adhoc("native_witness", vec![("script", tir::Expression::Bytes([vec![0x82, 0x00, 0x58, 0x1c], vec![9u8; 28]].concat()))]),
             adhoc("native_witness", vec![("script", tir::Expression::Bytes([vec![0x82, 0x00, 0x58, 0x1c], vec![2u8; 28]].concat()))]),
